@@ -129,8 +129,22 @@ Record Inv (s : rstate) (k : nat) : Prop := mkInv {
   inv_bounded : forall j, seen s j -> (j < k)%nat;
   inv_running_visited : r_end s = E_running -> forall j, (j < k)%nat -> seen s j;
   inv_fail_stop : forall i f, r_failed s = Some (Some i, f) ->
-                  (i < k)%nat /\ (forall j, seen s j -> (j <= i)%nat) /\ (forall j, (j < i)%nat -> seen s j)
+                  (i < k)%nat /\ (forall j, seen s j -> (j <= i)%nat) /\ (forall j, (j < i)%nat -> seen s j);
+  inv_import_failed : r_end s = E_import_return -> r_failed s <> None
 }.
+
+Lemma step_import_failed s i p :
+  r_end s = E_running -> r_end (step' s i p) = E_import_return -> r_failed (step' s i p) <> None.
+Proof.
+  intros E. unfold step. rewrite E.
+  destruct (rs_update requires_met (r_rs s) (p_directives p)) as [rs'|e|q]; simpl.
+  - destruct (rs_skips rs' || negb (has_any_code p)); [simpl; discriminate|].
+    destruct (negb (r_did_import s) && negb (c_import_ok cfg)); [simpl; discriminate|].
+    intros H; exfalso; revert H.
+    break_step; unfold fail_at, set_end; simpl; try discriminate; destruct (c_on_error cfg); discriminate.
+  - unfold fail_at; simpl. discriminate.
+  - discriminate.
+Qed.
 
 Lemma inv_init : Inv (init_state cfg) 0.
 Proof.
@@ -165,6 +179,7 @@ Proof.
     + assumption.
     + intros j H. specialize (inv_bounded0 j H). lia.
     + intros i f H. destruct (inv_fail_stop0 i f H) as (A & B & C). repeat split; try assumption. lia.
+    + assumption.
   - (* skipped *)
     pose proof (inv_running_nofail _ _ I Hr) as Fn.
     constructor.
@@ -179,6 +194,7 @@ Proof.
       destruct (Nat.eq_dec j k); [right; assumption|left].
       apply (inv_running_visited _ _ I Hr). lia.
     + intros i f H. rewrite Hf, Fn in H. discriminate.
+    + apply step_import_failed; exact Hr.
   - (* executed *)
     pose proof (inv_running_nofail _ _ I Hr) as Fn.
     constructor.
@@ -198,6 +214,7 @@ Proof.
         pose proof (inv_bounded _ _ I j Hj). lia.
       * intros j Hj. apply (seen_app_exec s _ k j Hex Hsk). left.
         apply (inv_running_visited _ _ I Hr). exact Hj.
+    + apply step_import_failed; exact Hr.
   - (* failed before executing *)
     pose proof (inv_running_nofail _ _ I Hr) as Fn.
     constructor; try (intros; contradiction).
@@ -209,6 +226,7 @@ Proof.
       repeat split; [lia | |].
       * intros j Hj. apply (seen_same s _ j Hex Hsk) in Hj. pose proof (inv_bounded _ _ I j Hj). lia.
       * intros j Hj. apply (seen_same s _ j Hex Hsk). apply (inv_running_visited _ _ I Hr). exact Hj.
+    + apply step_import_failed; exact Hr.
 Qed.
 
 Lemma inv_run_parts ps : forall s k, Inv s k -> Inv (run_parts' s k ps) (k + length ps).
@@ -282,22 +300,7 @@ Proof.
     inversion H; subst st. apply (inv_break_ran _ _ I E Fn).
   - inversion H; subst st. exfalso.
     (* import failure always records a failure *)
-    clear - E Fn I. 
-    assert (G : forall ps s k, r_end s <> E_import_return -> r_end (run_parts' s k ps) = E_import_return ->
-                               r_failed (run_parts' s k ps) <> None).
-    { induction ps0 as [|p ps0 IH]; intros s k Hs He; simpl in *; [contradiction|].
-      destruct (r_end (step' s k p)) eqn:E1; try (apply (IH _ _ ltac:(rewrite E1; discriminate) He)).
-      rewrite run_parts_frozen in * by (rewrite E1; discriminate).
-      (* the step itself produced E_import_return *)
-      unfold step in *. destruct (r_end s); try contradiction; try (rewrite E1 in Hs; contradiction).
-      destruct (rs_update requires_met (r_rs s) (p_directives p)); simpl in *.
-      + destruct (rs_skips a || negb (has_any_code p)); [simpl in E1; discriminate|].
-        destruct (negb (r_did_import s) && negb (c_import_ok cfg)); [simpl; discriminate|].
-        exfalso. revert E1. break_step; unfold fail_at, set_end; simpl; intros; try discriminate;
-          destruct (c_on_error cfg); discriminate.
-      + unfold fail_at in E1. simpl in E1. destruct (c_on_error cfg); discriminate.
-      + discriminate. }
-    apply (G ps (init_state cfg) 0%nat); [simpl; discriminate | exact E | exact Fn].
+    exact (inv_import_failed _ _ I E Fn).
 Qed.
 
 (* fail-stop: every part before the failing one was visited (ran or was skipped),
@@ -311,3 +314,18 @@ Theorem fail_stop ps i f :
 Proof. intros st H. exact (inv_fail_stop _ _ (inv_final ps) i f H). Qed.
 
 End Run.
+
+Section Run2.
+Variable requires_met : str -> res bool.
+Variable cfg : config.
+Variable oc : nat -> outcome.
+Theorem running_all_visited ps :
+  let st := run_parts requires_met cfg oc (init_state cfg) 0 ps in
+  r_end st = E_running ->
+  r_failed st = None /\ forall j, (j < length ps)%nat -> In j (r_executed st) \/ In j (r_skipped st).
+Proof.
+  intros st E. pose proof (inv_final requires_met cfg oc ps) as I. fold st in I. split.
+  - exact (inv_running_nofail _ _ I E).
+  - intros j Hj. exact (inv_running_visited _ _ I E j Hj).
+Qed.
+End Run2.
